@@ -344,8 +344,14 @@ def crashCheck (t : TS) (n v : Nat) (rc : String) (recLog : Int) (run : Run) : T
   -- a write that returned an error may or may not have reached the log: it counts as present iff it left a trace
   -- variant 5 (a zero block inside the unsynced part of a log): what survives is no longer a prefix of the log, so a batch
   -- counts as present iff it left a trace; the atomicity clause below makes sure it is then there as a whole
+  -- the recovered database may already have compacted (a background compaction can run between the reopen and the dump, and
+  -- without snapshots it drops every shadowed entry): an entry also counts as there when a recovered entry of the same key
+  -- with a higher sequence shadows it, or when it is a deletion marker with nothing older left below it -- in both cases no
+  -- read can tell the difference, and (3) below still compares every key's answer
+  let covered := fun (e : Entry) => run.contains e || run.any (fun r => r.ukey == e.ukey && r.seq > e.seq)
+                                    || (e.kind == 0 && !run.any (fun r => r.ukey == e.ukey && r.seq < e.seq))
   let inS := fun (b : BatchRec) => if b.failed || v == 5 then b.entries.any (fun e => run.contains e) || (v == 5 && decide ((b.log : Int) < recLog))
-                                   else decide ((b.log : Int) < recLog) || b.seq0 ≤ pOf b.log
+                                   else decide ((b.log : Int) < recLog) || b.seq0 ≤ pOf b.log || b.entries.all covered
   let sEntries := (begun.filter inS).flatMap (·.entries)
   -- (4) everything required survived
   let lost := required.filter (fun b => !inS b)
